@@ -59,7 +59,8 @@ FuelFlow(c) == IF c.cruise THEN Mul(NominalFF(c), CFCR) ELSE NominalFF(c)
 Sgr(c) == Div(c.v, FuelFlow(c))
 
 PointCases == [eng : Engines, W : {I(600), I(1200)}, v : {I(10), I(20)},
-               rocd : {I(-15), I(-5), I(0), I(5), I(40)}, a : {I(0), R(1, 10)},
+               rocd : {I(-15), I(-5), I(0), I(5), I(40)}, a : {I(0), R(1, 10), R(-1, 5)},     \* (a strong deceleration makes the
+               \* total-energy thrust negative in level flight and in climb as well)
                hf : {I(0), R(1, 4), R(1, 2)}, der : {"none", "partial", "clipped", "cold"},
                cruise : BOOLEAN]
 
@@ -78,6 +79,7 @@ ThrustWithinLimits == Done => /\ Le(out.thrust, MaxThrust(pcase))
                                /\ ~IsNeg(out.thrust)
 DescentWhenNegative == (Done /\ out.regime = "negative") => out.thrust = out.descent
 CappedWhenAbove == (Done /\ out.regime = "above_max") => out.thrust = MaxThrust(pcase)
+NegativeAlsoWithoutDescending == \E c \in PointCases : ~IsNeg(c.rocd) /\ IsNeg(ThrustTE(c)) /\ ~Lt(MaxThrust(c), ThrustTE(c))
 InsideIsTE == (Done /\ out.regime = "inside") => out.thrust = out.te
 CruiseFactorOnlyInCruise == Done =>
    out.ff = (IF pcase.cruise THEN Mul(NominalFF(pcase), CFCR) ELSE NominalFF(pcase))
